@@ -112,7 +112,7 @@ def hof_replay_traces(ctx, tid0):
 
 
 def run(ctx):
-    ctx.mc("MC_Evo", EVO_CFG.format(ngen=2 if ctx.quick else 3), tag="copies")
+    ctx.mc("MC_Evo", EVO_CFG.format(ngen=2 if ctx.quick else 3), tag="copies", coverage=True)
     traces = []
     cfgs = configs(ctx)
     from concurrent.futures import ThreadPoolExecutor
